@@ -344,7 +344,30 @@ func c10UDPServe(e *Env) {
 	}
 	e.R.Check(bad == "" && n >= 2, rule, "udp/server.Server.Serve:returns-only-for-listener", e.fpos(f), fmt.Sprintf("all %d returns inside the loop are caused by the listener read or its local address", n), bad+": one peer's bad datagram would stop the server for everyone")
 	// the per-peer error arms do not close anything but that peer's connection
+	// calls that are reached only through a deferred helper run at Serve's exit (the end-of-serving cleanup, whether it is a
+	// function literal or a named method) and are not per-peer error arms
+	inline := map[ssa.Instruction]bool{}
+	var walk func(g *ssa.Function, d int, seen map[*ssa.Function]bool)
+	walk = func(g *ssa.Function, d int, seen map[*ssa.Function]bool) {
+		for _, b := range g.Blocks {
+			for _, in := range b.Instrs {
+				inline[in] = true
+				if _, isDefer := in.(*ssa.Defer); isDefer || d >= 4 {
+					continue
+				}
+				if h := core.AbsorbedCallee(in); h != nil && !seen[h] {
+					seen[h] = true
+					walk(h, d+1, seen)
+				}
+			}
+		}
+	}
+	walk(f, 0, map[*ssa.Function]bool{f: true})
 	for _, c := range core.CallsNamed(f, "udp/server.Server.closeConnection") {
+		if !inline[c.(ssa.Instruction)] {
+			e.R.Notes = append(e.R.Notes, fmt.Sprintf("closeConnection at %s is part of a deferred cleanup of Serve, not a per-peer arm", e.pos(c.(ssa.Instruction))))
+			continue
+		}
 		ok := false
 		for _, i := range core.IfsOf(f) {
 			ev, nilBranch, is := core.ErrNilEdge(i)
